@@ -1,10 +1,76 @@
-(* C08 property theorems: statements only, each closed by `exact`, with Print Assumptions. *)
+(* C08 property theorems: statements only, each closed by `exact`, with Print Assumptions.
+   All statements are about the exact-rational model coq/C08/Model.v (== is equality of rationals). *)
 From Coq Require Import ZArith QArith Qabs List Bool.
-From QE Require Import C08.Model C08.Proofs.
+From QE Require Import Base.Cases C08.Model C08.Proofs.
 Import ListNotations.
 Open Scope Q_scope.
 
+(* quadrect = weights . f(nodes) = sum_r w_r f(x_r) *)
 Theorem C08_quadrect_is_dot : forall (X : Type) (f : X -> Q) nodes weights,
   quadrect f nodes weights == quad nodes weights f.
 Proof. exact @quadrect_is_quad. Qed.
 Print Assumptions C08_quadrect_is_dot.
+
+(* trapezoid rule, every n >= 2 and a < b *)
+Theorem C08_trap_exact_deg1 : forall n a b, (2 <= n)%nat -> a < b ->
+  exists nodes weights, qnwtrap1 n a b = Some (nodes, weights) /\
+    length nodes = n /\ length weights = n /\
+    Forall (fun x => a <= x <= b) nodes /\
+    Forall (fun w => 0 < w) weights /\
+    sumq weights == b - a /\
+    forall c0 c1, quad nodes weights (fun x => c0 + c1 * x)
+                  == c0 * (b - a) + c1 * ((b * b - a * a) * (1 # 2)).
+Proof. exact trap_spec. Qed.
+Print Assumptions C08_trap_exact_deg1.
+
+(* Simpson rule, every requested n >= 2 (even n rounded up to simp_n n), a < b: exact for cubics *)
+Theorem C08_simp_exact_deg3 : forall n0 a b, (2 <= n0)%nat -> a < b ->
+  exists nodes weights, qnwsimp1 n0 a b = Some (nodes, weights) /\
+    length nodes = simp_n n0 /\ length weights = simp_n n0 /\
+    Forall (fun x => a <= x <= b) nodes /\
+    Forall (fun w => 0 < w) weights /\
+    sumq weights == b - a /\
+    forall c0 c1 c2 c3,
+      quad nodes weights (fun x => c0 + c1 * x + c2 * (x * x) + c3 * (x * x * x))
+      == c0 * (b - a) + c1 * ((b * b - a * a) * (1 # 2))
+         + c2 * ((b * b * b - a * a * a) * (1 # 3))
+         + c3 * ((b * b * b * b - a * a * a * a) * (1 # 4)).
+Proof. exact simp_spec'. Qed.
+Print Assumptions C08_simp_exact_deg3.
+
+(* tensor products, any number d >= 2 of dimensions: rs lists, per dimension, the 1-d rule
+   (nodes, weights), an integrand f_i and the value I_i the 1-d rule gives for it.  The rule built by
+   _make_multidim_func (gridmake of the nodes, ckron of the reversed weights; node row r paired with
+   weight r by `quad`) has equally many nodes and weights, positive weights if the factors have,
+   total mass the product of the masses, and integrates the separable function prod_i f_i(x_i)
+   to prod_i I_i. *)
+Theorem C08_tensor_product_exact : forall (rs : list ((list Q * list Q) * ((Q -> Q) * Q))),
+  (2 <= length rs)%nat ->
+  Forall (fun r => length (fst (fst r)) = length (snd (fst r)) /\
+                   quad (fst (fst r)) (snd (fst r)) (fst (snd r)) == snd (snd r)) rs ->
+  exists nodes weights, tensor_rule (map fst rs) = Some (nodes, weights) /\
+    length nodes = length weights /\
+    (Forall (fun r => Forall (fun w => 0 < w) (snd (fst r))) rs -> Forall (fun w => 0 < w) weights) /\
+    sumq weights == prodq (map (fun r => sumq (snd (fst r))) rs) /\
+    quad nodes weights (prodfun (map (fun r => fst (snd r)) rs)) == prodq (map (fun r => snd (snd r)) rs).
+Proof. exact tensor_spec. Qed.
+Print Assumptions C08_tensor_product_exact.
+
+(* the separable integrand of exponents es is the product monomial of the model *)
+Theorem C08_monomial_is_separable : forall es row,
+  monomial es row = prodfun (map (fun e x => qpow x e) es) row.
+Proof. exact monomial_prodfun. Qed.
+Print Assumptions C08_monomial_is_separable.
+
+(* the hypotheses are satisfiable: 3-point trapezoid on [0,1] x 3-point Simpson on [0,2], monomial x*y^3 *)
+Example ex_trap : match qnwtrap1 3 0 1 with
+  | Some (x, w) => Qs_eqb x [0; 1 # 2; 1] && Qs_eqb w [1 # 4; 1 # 2; 1 # 4] | None => false end = true.
+Proof. vm_compute. reflexivity. Qed.
+Example ex_tensor : match qnwtrap1 3 0 1, qnwsimp1 2 0 2 with
+  | Some r1, Some r2 =>
+      match tensor_rule [r1; r2] with
+      | Some (nodes, weights) =>
+          Nat.eqb (length nodes) 9 && Qeq_bool (quad nodes weights (monomial [1%nat; 3%nat])) ((1 # 2) * 4)
+      | None => false end
+  | _, _ => false end = true.
+Proof. vm_compute. reflexivity. Qed.
